@@ -19,6 +19,7 @@ from symx import patch
 from symx.core import (Engine, SymBool, SymTok, mkbool, z3val_to_py,
                        Inconclusive)
 
+from ai_edge_quantizer import quantizer as quantizer_lib
 from ai_edge_quantizer import algorithm_manager
 from ai_edge_quantizer import algorithm_manager_api
 from ai_edge_quantizer import qtyping
@@ -27,7 +28,8 @@ from ai_edge_quantizer import recipe_manager
 PROP = 'C11'
 USES_SHIM = False
 LEVEL = 'model_checking'
-FUNCS = [recipe_manager.RecipeManager.add_quantization_config,
+FUNCS = [quantizer_lib.Quantizer.load_quantization_recipe,
+         recipe_manager.RecipeManager.add_quantization_config,
          recipe_manager.RecipeManager.get_quantization_configs,
          recipe_manager.RecipeManager.load_quantization_recipe,
          recipe_manager.RecipeManager.get_quantization_recipe,
@@ -334,7 +336,10 @@ def h_load(n):
   def h(e):
     with stubs(), patch.rebind('ai_edge_quantizer.recipe_manager',
                                '_OpQuantizationConfig', _CfgStub):
-      rm = recipe_manager.RecipeManager()
+      # through the public facade: Quantizer.load_quantization_recipe hands
+      # the rule list to its RecipeManager
+      q = quantizer_lib.Quantizer(bytearray(b''), None)
+      rm = q._recipe_manager
       # pre-existing content must be discarded by load
       rm._scope_configs[tok(regex_domain, 0)] = [
           recipe_manager.OpQuantizationRecipe(
@@ -349,9 +354,10 @@ def h_load(n):
         })
       raised = False
       try:
-        rm.load_quantization_recipe(recipe)
+        q.load_quantization_recipe(recipe)
       except ValueError:
         raised = True
+      rm = q._recipe_manager
       e.reach('load')
       model, ref_raised = [], False
       for c in recipe:
@@ -416,7 +422,10 @@ def job_step(job):
 def job_load(job):
   n = job.args['n']
   en = _ModelEngine(solver_timeout_ms=20000, max_paths=400000)
-  en.explore(h_load(n))
+  # the first violating path ends the job (its verdict is then fixed)
+  en.explore(h_load(n), stop_on_violation=True)
+  if en.violations:
+    en.inconclusive = []
   r = result_from_engines(job.name, [(f'load/{n}', en)], _to_candidate)
   r.samples = [f'load_quantization_recipe of {n} symbolic rules; '
                f'{en.stats.paths} paths']
@@ -571,10 +580,12 @@ def replay(c):
                        'algorithm_key': ALGS[d[f'alg_{i}']],
                        'op_config': cfgs[d[f'cfg_{i}']].to_dict()})
       raised = False
+      q = quantizer_lib.Quantizer(bytearray(b''), None)
       try:
-        rm.load_quantization_recipe(recipe)
+        q.load_quantization_recipe(recipe)
       except ValueError:
         raised = True
+      rm = q._recipe_manager
       ref_raised = False
       for cdict in recipe:
         model, r = ref_add_c(
